@@ -41,7 +41,7 @@ def arg_short(a):
 def arg_valname(a):
     return a["valname"] if a.get("valname") is not None else a["field"].upper()
 
-INT_TYS = ["i8", "u16", "i16", "u32", "i32"]
+INT_TYS = ["i8", "u16", "i16", "u32", "i32", "u64", "i64", "u128", "i128"]
 RUST_TY = {"str": "&'a str", "u8": "u8", "bool": "bool", "char": "char"}
 RUST_TY.update({t: t for t in INT_TYS})
 
